@@ -194,12 +194,11 @@ static Point parsePoint(const std::string& s) {
     Point p; p.name(unx(t[0])); p.x(unhex8(t[1])); p.y(unhex8(t[2])); p.z(unhex8(t[3])); p.residual(unhex8(t[4]));
     return p;
 }
-static Frame makeFrame(const std::string& pts, const std::string& subs) {
+static void buildPA(const std::string& pts, const std::string& subs, Points& P, Analogs& A) {
     // Two equivalent ways of building the same caller-side frame, chosen deterministically from the arguments: appending
     // (push_back), or placing the elements by index from the last to the first (resize + assignment, then replacement).
     // The model knows one frame value; a difference between the two paths shows as a disagreement.
     const bool byIdx = ((pts.size() * 7 + subs.size()) % 3) == 0;
-    Points P; Analogs A;
     std::vector<std::string> pl = splitList(pts, ';');
     if (!byIdx) for (size_t i = 0; i < pl.size(); ++i) P.point(parsePoint(pl[i]));
     else for (size_t i = pl.size(); i-- > 0; ) P.point(parsePoint(pl[i]), i);
@@ -221,6 +220,10 @@ static Frame makeFrame(const std::string& pts, const std::string& subs) {
     }
     if (!byIdx) for (size_t k = 0; k < sfs.size(); ++k) A.subframe(sfs[k]);
     else for (size_t k = sfs.size(); k-- > 0; ) A.subframe(sfs[k], k);
+}
+
+static Frame makeFrame(const std::string& pts, const std::string& subs) {
+    Points P; Analogs A; buildPA(pts, subs, P, A);
     Frame f; f.add(P, A);
     return f;
 }
@@ -277,6 +280,13 @@ static int runScript(const char* scriptPath, const char* outPath, int tid) {
         else if (op == "load") { cur.reset(); res = classify([&]() { cur.reset(new Open(t[1])); }); }
         else if (op == "specdecode" || op == "lwcheck") { std::fprintf(out, "R skipped\n"); continue; }
         else if (op == "mkframe") { vars[t[1]] = makeFrame(t[2], t[3]); continue; }
+        else if (op == "cpframe") {   // cpframe <v> <i>: the caller takes a by-value copy of stored frame i (the copy shares its payload handles)
+            if (cur) { size_t i = std::strtoull(t[2].c_str(), 0, 10); if (i < cur->data().nbFrames()) vars[t[1]] = cur->data().frame(i); }
+            continue;
+        }
+        else if (op == "refill") {    // refill <v> <pts> <subs>: the caller re-uses its frame object as a template: add(points, analogs) gives it new content
+            Points P; Analogs A; buildPA(t[2], t[3], P, A); vars[t[1]].add(P, A); continue;
+        }
         else if (op == "cmut") {
             Frame& f = vars[t[1]];
             if (t[2] == "pt") { size_t i = std::strtoull(t[3].c_str(), 0, 10); Point& p = f.points_nonConst().point_nonConst(i); p.x(unhex8(t[4])); p.y(unhex8(t[5])); p.z(unhex8(t[6])); p.residual(unhex8(t[7])); }
